@@ -130,7 +130,9 @@ Definition naming_model (c : str * option str * str * option str * (option str *
                 for g, n, c, ns, mg, m in [('', None, 'PrepareTask', None, None, 'pkg.features'),
                                            ('g', 'prepare_task', 'X', 'train', None, 'features'),
                                            ('g:h', None, 'HTTPServer', 'a::b', 'own', 'pkg.sub.features'),
-                                           ('', '', 'Named', None, None, 'pkg.features')]]
+                                           ('', '', 'Named', None, None, 'pkg.features'),
+                                           # grouping switched off: an explicit empty group for a class that would get the module's
+                                           ('', None, 'Ungrouped', None, '', 'pkg.features'), ('', 'x', 'Ungrouped', 'n', '', 'pkg.sub.features')]]
 
     def gen(self, rng, tier):
         import string
@@ -144,7 +146,7 @@ Definition naming_model (c : str * option str * str * option str * (option str *
                 if rng.random() < 0.3:
                     cname += rng.choice(['Task', '_task', '_Task', 'task', 'TASK'])
             out.append(dict(group=rng.choice(self.GROUPS), name=rng.choice(self.NAMES), cname=cname,
-                            ns=rng.choice([None, None, 'n', 'outer::n']), mgroup=rng.choice([None, None, 'own', 'a:b']),
+                            ns=rng.choice([None, None, 'n', 'outer::n']), mgroup=rng.choice([None, None, 'own', 'a:b', '']),
                             module=rng.choice(self.MODULES)))
         return out
 
@@ -311,9 +313,74 @@ class BraceTexts(Suite):
         return repr(case)
 
 
+TUPLE_GOLDENS = [
+    ("dict()", "Net(dropout=0.5, layers=(64, 32), shape=None)"),
+    ("dict(layers=(8,))", "Net(dropout=0.5, layers=(8,), shape=None)"),
+    ("dict(layers=())", "Net(dropout=0.5, layers=(), shape=None)"),
+    ("dict(shape=[(1, 2), (3,)])", "Net(dropout=0.5, layers=(64, 32), shape=[(1, 2), (3,)])"),
+    ("dict(shape={'in': (3, 224), 'out': ((1,),)})", "Net(dropout=0.5, layers=(64, 32), shape={'in': (3, 224), 'out': ((1,),)})"),
+    ("dict(layers=[64, 32])", "Net(dropout=0.5, layers=[64, 32], shape=None)"),
+    ("dict(layers=(64, 32), shape=('a', None))", "Net(dropout=0.5, layers=(64, 32), shape=('a', None))"),
+]
+
+
+class TupleArguments(Suite):
+    """parameter objects with tuple-valued arguments (a tuple default, tuples inside lists and mappings): the text of the
+    object - and with it the key of the task and of its dependants - is the text release 1.4.0 gives (recorded), a tuple
+    is written as a tuple; the key of a chain that uses the object is the SHA-256 of the recorded text.  Runtime check
+    against recorded texts."""
+    name = 'tuple_arguments'
+    model = ''
+
+    def gen(self, rng, tier):
+        return [dict(kwargs=k, golden=g) for k, g in TUPLE_GOLDENS]
+
+    def run_impl(self, case):
+        import hashlib, sys, types
+        from taskchain import Config
+        name = 'tcv_tuples'
+        m = types.ModuleType(name)
+        sys.modules[name] = m
+        try:
+            exec(compile("""
+from taskchain import Task, Parameter
+from taskchain.parameter import AutoParameterObject
+class Net(AutoParameterObject):
+    def __init__(self, layers=(64, 32), dropout=0.5, shape=None, verbose=False):
+        self.layers, self.dropout, self.shape, self.verbose = layers, dropout, shape, verbose
+class Train(Task):
+    class Meta:
+        parameters = [Parameter('net')]
+    def run(self, net) -> int:
+        return 1
+""", name, 'exec'), m.__dict__)
+            m.Train.__module__ = m.Net.__module__ = name
+            obj = m.Net(**eval(case['kwargs']))
+            chain = Config('/nonexistent-base', name='c', data={'tasks': [m.Train], 'net': obj}).chain()
+            want = hashlib.sha256(f"net={case['golden']}$$$".encode()).hexdigest()[:32]
+            return dict(text=obj.repr(), key=chain['train'].name_for_persistence, want_key=want)
+        finally:
+            sys.modules.pop(name, None)
+
+    def oracle(self, case, obs):
+        if 'unexpected_exception' in obs:
+            return f'unexpected exception {obs["unexpected_exception"]}: {obs["text"]}'
+        if obs['text'] != case['golden']:
+            return f'Net(**{case["kwargs"]}) is written {obs["text"]!r}; release 1.4.0 writes {case["golden"]!r}'
+        if obs['key'] != obs['want_key']:
+            return f'the task that takes Net(**{case["kwargs"]}) has the key {obs["key"]}; the recorded text gives {obs["want_key"]}'
+        return None
+
+    def nontrivial(self, case, obs):
+        return True
+
+    def key(self, case):
+        return case['kwargs']
+
+
 class C12(Prop):
     pid = 'C12'
-    suites = [Registry(), Keys(), Sha(), NameModeLayout(), Naming(), BraceTexts(), DataDirs()]
+    suites = [Registry(), Keys(), Sha(), NameModeLayout(), Naming(), BraceTexts(), DataDirs(), TupleArguments()]
     trusted_base = ['SHA-256: the Gallina implementation is checked against FIPS vectors (kernel) and hashlib (correspondence)',
                     'the frozen re-implementation harness/tcv/oracle_frozen.py and the golden literals were produced at the pinned commit']
     assumptions = ['parameter mode; name mode (key = config name) is exercised by the C20 harness']
